@@ -23,15 +23,15 @@ const (
 
 // Block describes one completely decoded block.
 type Block struct {
-	Type     int   // 0 stored, 1 fixed, 2 dynamic
-	Final    bool  // BFINAL
-	StartBit int64 // bit offset of the block's first header bit (BFINAL) in the input
-	EndBit   int64 // bit offset just after the block's last bit (after EOB, or after the last stored data byte)
-	OutStart int   // output length when the block started
-	OutLen   int   // bytes this block produced
-	NLit     int   // literal tokens (stored bytes are not tokens)
-	NMatch   int   // length/distance tokens
-	Empty    bool  // a stored block with LEN == 0
+	Type     int     // 0 stored, 1 fixed, 2 dynamic
+	Final    bool    // BFINAL
+	StartBit int64   // bit offset of the block's first header bit (BFINAL) in the input
+	EndBit   int64   // bit offset just after the block's last bit (after EOB, or after the last stored data byte)
+	OutStart int     // output length when the block started
+	OutLen   int     // bytes this block produced
+	NLit     int     // literal tokens (stored bytes are not tokens)
+	NMatch   int     // length/distance tokens
+	Empty    bool    // a stored block with LEN == 0
 	LitLens  []uint8 // dynamic blocks: the declared literal/length code lengths
 	DistLens []uint8 // dynamic blocks: the declared distance code lengths
 	HdrBits  int64   // dynamic blocks: bits from BFINAL up to the first token
